@@ -116,6 +116,10 @@ func drawStream(t *Tape) StreamPlan {
 		return StreamPlan{Kind: StreamFailAfter, N: t.Draw(120)}
 	case 2:
 		return StreamPlan{Kind: StreamShort, N: 1 + t.Draw(16)}
+	case 3:
+		if t.Draw(2) == 0 {
+			return StreamPlan{Kind: StreamStuck, N: t.Draw(60)}
+		}
 	}
 	return StreamPlan{}
 }
@@ -293,7 +297,7 @@ func c07Verdict(c *c07Case, runs [3]policyRun, st *Stats) *Violation {
 	st.Evals++
 	tpl := c.Tree.Tpl[c.Level]
 	st.Count("kind." + c.Kind)
-	st.Count("stream." + []string{"healthy", "closed", "fail_after", "short"}[c.Stream.Kind])
+	st.Count("stream." + []string{"healthy", "closed", "fail_after", "short", "stuck"}[c.Stream.Kind])
 	if c.Kind == "rejected" {
 		st.Count("fired.reject." + rejectCauseNames[c.Cause])
 		st.Count(fmt.Sprintf("reject.level=%d", c.Level))
@@ -498,7 +502,7 @@ func (c14Prop) Exec(cc Case, st *Stats) *Violation {
 func c14Verdict(c *c07Case, runs [3]policyRun, st *Stats) *Violation {
 	st.Evals++
 	st.Count("kind." + c.Kind)
-	st.Count("stream." + []string{"healthy", "closed", "fail_after", "short"}[c.Stream.Kind])
+	st.Count("stream." + []string{"healthy", "closed", "fail_after", "short", "stuck"}[c.Stream.Kind])
 	if c.ExtraBroken >= 0 {
 		st.Count("reach.help_with_invalid_level")
 		if c.ExtraBroken < c.Level {
